@@ -55,6 +55,38 @@ def _alias_check(rec, shape, arrays, sig, L):
     rec.label("alias_checked")
 
 
+def _twin_check(rec, make, sig, L):
+    """Two instances built from equal (separately held) arguments are independent objects: moving and resizing one
+    through its public setters changes no observable of the other (no state shared through class attributes,
+    default arguments or memoised constructor helpers)."""
+    a, b = call(make), call(make)
+    if isinstance(a, Raised) or isinstance(b, Raised):
+        return
+    before = observe.canonical(observe.observe(b))
+    cls = type(a)
+    done = []
+    for name, val in (("centroid", None), ("center", None), ("volume", 3.7), ("area", 3.7), ("radius", 1.9), ("a", 1.9)):
+        if name not in observe.settable_properties(cls):
+            continue
+        cur = call(getattr, a, name)
+        if isinstance(cur, Raised):
+            continue
+        if val is None:
+            target = np.asarray(cur, dtype=float) + np.array([0.7, -0.4, 0.0 if not observe.is3d(a) else 0.9]) * L
+        else:
+            try:
+                target = float(cur) * val if float(cur) > 0 else 0.37 * L
+            except Exception:
+                continue
+        if not isinstance(call(setattr, a, name, target), Raised):
+            done.append(name)
+    if not done:
+        return
+    after = observe.canonical(observe.observe(b))
+    observe.compare(rec, before, after, L, observe.is3d(b), dict(sig, twin="other_instance_changed"), "twin_", rtol=1e-13)
+    rec.label("twin_checked")
+
+
 # ------------------------------------------------------------------------- polygons
 @st.composite
 def _polygon_case(draw):
@@ -205,6 +237,9 @@ def _polygon(case, rec):
         return
     rec.close("stored_vertices_are_input", r.vertices, V, 0.0, sig)
     _alias_check(rec, r, [arg_v, arg_nn], sig, maxnorm(V))
+    kw_t = {} if arg_n is None else {"normal": arg_n.copy() if isinstance(arg_n, np.ndarray) else arg_n}
+    if case["i"] % 4 == 0:
+        _twin_check(rec, lambda: S.Polygon(_contain(V, case["container"]), **kw_t), sig, maxnorm(V))
 
 
 # ------------------------------------------------------------------- convex polytopes
@@ -275,6 +310,8 @@ def _convex2(case, rec):
     hull_order = {(b - a) % n for a, b in zip(cyc_in, cyc_in[1:] + cyc_in[:1])} in ({1}, {n - 1})
     kw2 = {} if arg_n is None else {"normal": arg_n.copy() if isinstance(arg_n, np.ndarray) else arg_n}  # (the alias check scribbled on kw's)
     r2 = call(S.Polygon, _contain(Vp, case["container"]), **kw2)
+    if case["perm"][0] % 4 == 0:
+        _twin_check(rec, lambda: cls(*((_contain(Vp, case["container"]), r_) if sphero else (_contain(Vp, case["container"]),)), **dict(kw2)), sig, maxnorm(Vp))
     s2 = dict(sig, then="Polygon")
     if hull_order:
         rec.check(not isinstance(r2, Raised), "valid_polygon_accepted", dict(s2, type=getattr(r2, "type", "")), error=getattr(r2, "msg", ""))
@@ -326,6 +363,8 @@ def _convex3(case, rec):
         return
     rec.close("stored_vertices_are_input", r.vertices, Vp, 0.0, sig)
     _alias_check(rec, r, [arg_v], sig, maxnorm(Vp))
+    if case["perm"][0] % 4 == 0:
+        _twin_check(rec, lambda: cls(_contain(Vp, case["container"]), r_) if sphero else cls(_contain(Vp, case["container"])), sig, maxnorm(Vp))
 
 
 @st.composite
@@ -407,6 +446,9 @@ def _curved(case, rec):
         after = observe.canonical(observe.observe(r))
         observe.compare(rec, before, after, max(ax) + float(np.linalg.norm(keep)), cls in ("Sphere", "Ellipsoid"), sig, "aliased_argument_", rtol=1e-13)
         rec.label("alias_checked")
+    cen_t = curved.make_centre(case["centre"], max(ax))
+    _twin_check(rec, lambda: call(getattr(S, cls), *ax, curved.make_centre(case["centre"], max(ax))), sig,
+                max(ax) + float(np.linalg.norm(np.asarray(cen_t, dtype=float))))
 
 
 def clauses():
